@@ -1,8 +1,9 @@
 CONSTANTS
   Kind = "testdrv"
   MaxL = 3
+  WithOpts = FALSE
   MaxMsgs = 5
 INIT Init
 NEXT Next
-INVARIANTS OnlyWhileListening ClosedReported NeverTwoListeners ActiveImpliesOpen
+INVARIANTS FilteredNeverDelivered OnlyWhileListening ClosedReported NeverTwoListeners ActiveImpliesOpen
 CHECK_DEADLOCK FALSE
